@@ -106,7 +106,11 @@ def build_jobs(ctx, rng):
 
     def add(label, func, params, H, W, dtype, kind, radius=(1, 1), geo=None, kh=1, kw=1, passes=1, independent=False):
         vals = make_vals(rng, H, W, kind if kind == "bigint" else ("int" if dtype.startswith(("int", "uint")) else kind))
-        ch = pick_chunkings(rng, H, W, nchunk, not quick and H * W <= 30)
+        # the thorough tier takes EVERY chunking of rasters up to 30 cells, except for the functions whose single
+        # Dask evaluation is expensive (16 noise layers, global reductions): a seeded sample of 60 there - measured:
+        # exhaustive generate_terrain alone kept one worker busy for > 90 CPU-min
+        heavy = func in ("generate_terrain", "perlin", "true_color", "hotspots", "equal_interval")
+        ch = pick_chunkings(rng, H, W, min(nchunk, 60) if heavy else nchunk, not quick and H * W <= 30 and not heavy)
         if independent:
             for c in ch:
                 u = rng.random()
